@@ -235,14 +235,30 @@ func (x *Exec) appendOp(cfg *Config, args []Val, sig *types.Signature, pos token
 	// old array is reused Go writes the same values at the same positions of
 	// the old array beyond len(s), which no live slice of length <= len(s)
 	// can observe. (Assumption: no other slice views the spare capacity.)
-	x.usedTrusted["append modelled as copy into a fresh backing array (no aliasing through spare capacity)"] = true
+	x.usedTrusted["append: the result is modelled as a separate array even when the capacity sufficed (the write into the old backing array is modelled, later aliasing between the two is not)"] = true
 	base := x.alloc(st, "backing")
 	row := x.d.Fresh("approw", rowSort)
 	k := Term{"k", x.idxSort()}
 	z := x.intLit(0, x.idxSort())
 	st.assume(Forall([]Term{k}, Eq(Select(row, k),
 		Ite(Lt(k, n), x.sliceElem(st, s, k, el), x.sliceElem(st, t, Sub(k, n), el))), []Term{Select(row, k)}))
-	st.heap[name] = Store(arr, base, row)
+	// When the capacity suffices Go stores the new elements into the OLD
+	// backing array, right after the first len(s) elements - visible through
+	// every longer view of that array (e.g. the slice s was cut from). That
+	// write is modelled (and has to be within the frame); the result is still
+	// a separate array (aliasing between s's array and the result afterwards
+	// is not modelled).
+	fits := And(Neq(s, IntLit(0)), Le(newLen, x.slCap(s)), Gt(m, z))
+	oldBase := x.slBase(s)
+	oldRow := Select(arr, oldBase)
+	clob := x.d.Fresh("clobrow", rowSort)
+	lo := Add(x.slOff(s), n)
+	st.assume(Forall([]Term{k}, Eq(Select(clob, k),
+		Ite(And(fits, Le(lo, k), Lt(k, Add(lo, m))), x.sliceElem(st, t, Sub(k, lo), el), Select(oldRow, k))), []Term{Select(clob, k)}))
+	if x.frameReady && len(cfg.loops) > 0 && len(cfg.frames) > 0 && !x.frameWhole[name] && !(x.c != nil && x.c.Options["noframe"] == "true") {
+		x.oblige(cfg, "store-in-frame", name+" (append within capacity writes the old backing array)", Or(Not(fits), x.mayWrite(name, oldBase)), nil, pos)
+	}
+	st.heap[name] = Store(Store(arr, oldBase, clob), base, row)
 	cp := x.d.Fresh("cap", x.idxSort())
 	st.assume(Ge(cp, newLen))
 	if x.mode == "bv" {
